@@ -248,8 +248,39 @@ pub fn build_script(w: &Arc<World>, header_mode: bool, interleave: bool, items: 
                 expect.push(Expect::Err(it.junk.clone()));
                 w.stat("probe.c06.junk_with_intact_header");
             }
+            "junk" if header_mode && it.junk == "hdr_zero_refs_cache_ref" => {
+                // a header that declares no atom references in front of terms that use them (positions that an
+                // earlier message's header may have defined): malformed, one error, and nothing learnt from it
+                let (control, has_payload) = sender::gen_control(&mut r, it.ctl_kind as usize, false);
+                let payload = if has_payload { Some(Val::tuple(vec![Val::int(k as i128), wire::gen_val(&mut r, it.size)])) } else { None };
+                let mut atoms = Vec::new();
+                control.atoms(&mut atoms);
+                if let Some(p) = &payload {
+                    p.atoms(&mut atoms);
+                }
+                let mut pos = wire::AtomPositions::new();
+                for a in atoms.iter().filter(|a| a.len() <= 255) {
+                    let n = pos.len() as u8;
+                    if pos.len() < 255 {
+                        pos.entry(a.clone()).or_insert(n);
+                    }
+                }
+                if pos.is_empty() {
+                    // no atom to refer to: a plain garbage frame instead
+                    frames.push((wire::frame4(&sender::junk_body(&mut r, "pt_garbage")), it.gap_ms));
+                } else {
+                    let mut body = vec![131u8, 68, 0];
+                    wire::enc_term(&mut body, &control, Some(&pos));
+                    if let Some(p) = &payload {
+                        wire::enc_term(&mut body, p, Some(&pos));
+                    }
+                    frames.push((wire::frame4(&body), it.gap_ms));
+                    w.stat("probe.c06.junk_zero_refs_with_cache_refs");
+                }
+                expect.push(Expect::Err(it.junk.clone()));
+            }
             "junk" => {
-                let kind = if it.junk == "hdr_ok_term_bad" { "pt_garbage" } else { it.junk.as_str() };
+                let kind = if it.junk == "hdr_ok_term_bad" || it.junk == "hdr_zero_refs_cache_ref" { "pt_garbage" } else { it.junk.as_str() };
                 frames.push((wire::frame4(&sender::junk_body(&mut r, kind)), it.gap_ms));
                 expect.push(Expect::Err(it.junk.clone()));
             }
